@@ -201,6 +201,15 @@ func genSys(r *hlib.Rand, tier string) input {
 		}
 	}
 	in.HistLimit = hlib.Pick(r, []int{0, 0, 2, 10})
+	// half of the runs have one slow worker (any shard, mostly not shard 0): its queue is full
+	// while the others are free and parsers block on it in the middle of a dispatch
+	if r.Bool() {
+		in.SlowShard = r.Intn(in.Shards)
+		if in.Shards > 1 && r.Chance(2, 3) {
+			in.SlowShard = r.Range(1, in.Shards-1)
+		}
+		in.SlowMicros = r.Range(30, 250)
+	}
 	in.Sched = r.U64()
 	u := newLineUniverse(r)
 	nlines := r.Range(40, 220)
@@ -245,7 +254,8 @@ type aggWrap struct {
 	inner *statsd.MetricAggregator
 	id    int
 	ids   *sync.Map
-	log   []wev // appended by the worker goroutine only; read after the run
+	slow  time.Duration // scripted: this worker is slow to merge, so its queue backs up
+	log   []wev         // appended by the worker goroutine only; read after the run
 }
 
 // wev is what a worker was seen doing (its own order is the real order: one goroutine).
@@ -270,6 +280,9 @@ func batchOf(mm *gostatsd.MetricMap) int {
 
 func (a *aggWrap) ReceiveMap(mm *gostatsd.MetricMap) {
 	a.log = append(a.log, wev{'M', batchOf(mm)})
+	if a.slow > 0 {
+		time.Sleep(a.slow)
+	}
 	a.inner.ReceiveMap(mm)
 }
 func (a *aggWrap) Flush(d time.Duration) {
@@ -543,6 +556,9 @@ func runSys(in input, rep uint64) hlib.Case {
 	af := statsd.AggregatorFactoryFunc(func() statsd.Aggregator {
 		a := statsd.NewMetricAggregator([]float64{90}, exp(0), exp(2), exp(3), exp(1), gostatsd.TimerSubtypes{}, uint32(in.HistLimit))
 		w := &aggWrap{inner: a, id: nAgg, ids: &ids}
+		if in.SlowMicros > 0 && nAgg == in.SlowShard {
+			w.slow = time.Duration(in.SlowMicros) * time.Microsecond
+		}
 		aggs = append(aggs, w)
 		nAgg++
 		return w
@@ -748,18 +764,26 @@ func runSys(in input, rep uint64) hlib.Case {
 		}
 	}
 	ticks := int(atomic.LoadInt64(&flushNo))
-	var witness []string
+	trace := "None"
 	if atomic.LoadInt32(&wedged) == 0 { // the goroutines have stopped: the logs are stable
-		var stuck string
-		witness, stuck = buildWitness(in.Shards, in.Queue, plog, wlog, ticks)
-		if stuck != "" {
-			c.Monitors = append(c.Monitors, "the recorded per-goroutine trace is not a run of the configured pipeline (parsers "+
-				fmt.Sprint(in.Parsers)+", queue "+fmt.Sprint(in.Queue)+"): "+stuck)
+		// every received map must be the split of a dispatched batch for that worker, received
+		// once; every split that should exist must have been received
+		anomalies := logAnomalies(in, plog, wlog)
+		if len(anomalies) > 0 {
+			if len(anomalies) > 4 {
+				anomalies = append(anomalies[:4], fmt.Sprintf("... and %d more", len(anomalies)-4))
+			}
+			c.Monitors = append(c.Monitors, anomalies...)
+		} else {
+			witness, stuck := buildWitness(in.Shards, in.Queue, plog, wlog, ticks)
+			if stuck != "" {
+				c.Monitors = append(c.Monitors, "the recorded per-goroutine trace is not a run of the configured pipeline (parsers "+
+					fmt.Sprint(in.Parsers)+", queue "+fmt.Sprint(in.Queue)+"): "+stuck)
+			}
+			trace = "(Some " + traceTerm(in, witness, plog, wlog, ticks) + ")"
 		}
-	} else {
-		plog, wlog = make([][]int, len(hws)), make([][]wev, in.Shards)
 	}
-	c.Coq = hlib.App("SysCase", hlib.Nat(in.Shards), hlib.List(bl), oracleTable(lines), hlib.List(fl), traceTerm(in, witness, plog, wlog, ticks))
+	c.Coq = hlib.App("SysCase", hlib.Nat(in.Shards), hlib.List(bl), oracleTable(lines), hlib.List(fl), trace)
 	expClass := "mixed"
 	if in.Exp == [4]int64{} {
 		expClass = "persist"
@@ -780,6 +804,9 @@ func runSys(in input, rep uint64) hlib.Case {
 	}
 	if histLines > 0 {
 		c.Class += "/hist"
+	}
+	if in.SlowMicros > 0 {
+		c.Class += "/slow"
 	}
 	c.Obs = map[string]interface{}{"lines": len(lines), "accepted": accepted, "series": len(sent), "flushes": atomic.LoadInt64(&flushNo), "histogram_timer_lines": histLines,
 		"flushes_with_data": len(flushesWithData), "maps_captured": len(caps)}
